@@ -88,5 +88,5 @@ SomeGrindings == {0, 1, 7, 16, 31, 32}
 AllFieldBits == {62, 64, 128}
 FewGrindings == {0, 16, 32}
 SomeBlowups == {2, 8, 128}
-AllCRs == {96, 124, 128}
+AllCRs == {64, 96, 124, 128}     \* 64: a hasher with a 128-bit digest (custom Hasher implementations)
 =============================================================================
